@@ -1,6 +1,7 @@
 package main
 
 import (
+	"slices"
 	"encoding/json"
 	"flag"
 	"math/rand"
@@ -91,7 +92,17 @@ func randSem(rng *rand.Rand) Sem {
 	case 2: // boundary values: around Fetch's default of 5 s, the documented maximum, small ones
 		s.MaxAge = []int{1, 2, 4, 5, 6, 9, 10, 59, 60, 600, 7200, 86399, 86400}[rng.Intn(13)]
 	}
-	switch rng.Intn(5) {
+	switch rng.Intn(6) {
+	case 5: // the SAME names as in RequestHeaders (the two lists are independent sets)
+		for _, n := range s.HNames {
+			if n != "authorization" && !slices.Contains(safelistedRespHdrs, n) && rng.Intn(2) == 0 {
+				s.Expose = append(s.Expose, n)
+			}
+		}
+		if len(s.Expose) == 0 {
+			s.Expose = []string{"x-a"}
+		}
+		sort.Strings(s.Expose)
 	case 4: // names with token punctuation / beyond small buffers
 		s.Expose = []string{"x_exposed_id", "x^e"}
 		if rng.Intn(2) == 0 {
